@@ -46,6 +46,43 @@ theorem gen_slices (n : Nat) :
     Gen.ArrayListFns.slice_remainder n = n &&& (SLICE - 1) := by
   refine ⟨rfl, rfl, rfl⟩
 
+/-- `pop_front_n`: the model's decisions (`n ≥ length` pops everything, else `n > 0` moves) and its byte counts
+are the generated ones (the C products wrap modulo 2^64; below `length` and with `length * item_size ≤ SIZE_MAX`,
+which `Rel` guarantees, they do not) -/
+theorem gen_popFrontN (isz len n : Nat) :
+    Gen.ArrayListFns.pop_front_n_all isz len n = decide (n ≥ len) ∧
+    Gen.ArrayListFns.pop_front_n_some isz len n = decide (n > 0) ∧
+    (n < len → 0 < isz → len * isz ≤ SIZE_MAX →
+      Gen.ArrayListFns.pop_front_n_popping isz len n = n * isz ∧
+      Gen.ArrayListFns.pop_front_n_length isz len n = len - n ∧
+      Gen.ArrayListFns.pop_front_n_remaining isz len n = (len - n) * isz) := by
+  refine ⟨?_, ?_, fun hn hz hfit => ?_⟩
+  · unfold Gen.ArrayListFns.pop_front_n_all
+    by_cases h : n ≥ len <;> simp [h]
+  · unfold Gen.ArrayListFns.pop_front_n_some
+    by_cases h : n > 0 <;> simp [h]
+  · simp only [SIZE_MAX] at hfit
+    have h1 : n * isz ≤ len * isz := Nat.mul_le_mul_right isz (Nat.le_of_lt hn)
+    have h2 : (len - n) * isz ≤ len * isz := Nat.mul_le_mul_right isz (Nat.sub_le len n)
+    have hlen : len < 18446744073709551616 := by
+      have := Nat.le_mul_of_pos_right len hz
+      omega
+    unfold Gen.ArrayListFns.pop_front_n_popping Gen.ArrayListFns.pop_front_n_length Gen.ArrayListFns.pop_front_n_remaining
+    have e1 : (len + 18446744073709551616 - n) % 18446744073709551616 = len - n := by
+      have : len + 18446744073709551616 - n = (len - n) + 18446744073709551616 := by omega
+      rw [this, Nat.add_mod_right]; exact Nat.mod_eq_of_lt (by omega)
+    refine ⟨?_, e1, ?_⟩
+    · rw [Nat.mul_comm isz n]; exact Nat.mod_eq_of_lt (by omega)
+    · simp only [e1]; exact Nat.mod_eq_of_lt (by omega)
+
+theorem gen_index_guards (len i : Nat) :
+    Gen.ArrayListFns.get_at_ok len i = decide (len > i) ∧ Gen.ArrayListFns.get_at_ptr_ok len i = decide (len > i) ∧
+    Gen.ArrayListFns.erase_bad_index len i = decide (i ≥ len) := by
+  refine ⟨?_, ?_, ?_⟩
+  · unfold Gen.ArrayListFns.get_at_ok; by_cases h : len > i <;> simp [h]
+  · unfold Gen.ArrayListFns.get_at_ptr_ok; by_cases h : len > i <;> simp [h]
+  · unfold Gen.ArrayListFns.erase_bad_index; by_cases h : i ≥ len <;> simp [h]
+
 /-- the model's `ensure_capacity`, spelled with the generated functions -/
 theorem ensureCapacity_gen (l : AL) (index : Nat) :
     ensureCapacity l index =
